@@ -163,6 +163,28 @@ pub fn realise_mesh(s: &MeshSeed, table: &[(u8, u8)], canonical: bool) -> MeshSp
             idx += 1;
         }
     }
+    // the writer's side of the same boundary: every eleventh canonical mesh fills its declaration with further colour
+    // elements (usage indices 1, 2, ...) that carry the same bytes as the first one, so that parse and write agree on
+    // them whichever of the copies a reader reports
+    if canonical && s.seed % 11 == 0 && pairs_for(U_COLOR, table).contains(&T_BYTEFLOAT4) {
+        if !elements.iter().any(|e| e.usage == U_COLOR) && extent[0] + 4 <= 255 {
+            elements.push(Element { stream: 0, offset: extent[0] as u8, ty: T_BYTEFLOAT4, usage: U_COLOR, usage_index: 0 });
+            extent[0] += 4;
+        }
+        if elements.iter().any(|e| e.usage == U_COLOR && e.ty == T_BYTEFLOAT4) {
+            let target = if (s.seed >> 8) % 2 == 0 { 16 } else { 12 + ((s.seed >> 12) % 4) as usize };
+            let mut idx = 1u8;
+            while elements.len() < target {
+                let st = (idx as usize) % stream_count as usize;
+                if extent[st] + 4 > 255 {
+                    break;
+                }
+                elements.push(Element { stream: st as u8, offset: extent[st] as u8, ty: T_BYTEFLOAT4, usage: U_COLOR, usage_index: idx });
+                extent[st] += 4;
+                idx += 1;
+            }
+        }
+    }
     let mut strides = [0u8; 3];
     let mut streams: [Vec<u8>; 3] = [vec![], vec![], vec![]];
     for st in 0..stream_count as usize {
@@ -184,6 +206,7 @@ pub fn realise_mesh(s: &MeshSeed, table: &[(u8, u8)], canonical: bool) -> MeshSp
                 streams[st][at..at + sz].copy_from_slice(&b);
             }
         }
+        copy_repeated_elements(&elements, &strides, &mut streams, s.vertex_count as usize);
     }
     let idx_rnd = random_bytes(s.seed ^ 0x77, s.index_count as usize * 2);
     let indices: Vec<u16> = (0..s.index_count as usize).map(|i| u16::from_le_bytes([idx_rnd[2 * i], idx_rnd[2 * i + 1]]) % s.vertex_count.max(1)).collect();
@@ -208,6 +231,20 @@ pub fn realise_mesh(s: &MeshSeed, table: &[(u8, u8)], canonical: bool) -> MeshSp
         material_index: s.material_index,
         submeshes,
         bone_table_index: s.bone_table_index,
+    }
+}
+
+/// elements with a usage index above 0 that repeat the usage and type of an index-0 element get that element's bytes
+pub fn copy_repeated_elements(elements: &[Element], strides: &[u8; 3], streams: &mut [Vec<u8>; 3], vertex_count: usize) {
+    for e in elements.iter().filter(|e| e.usage_index > 0 && e.usage == U_COLOR) {
+        let Some(base) = elements.iter().find(|b| b.usage == e.usage && b.usage_index == 0 && b.ty == e.ty) else { continue };
+        let sz = type_size(e.ty);
+        for k in 0..vertex_count {
+            let from = strides[base.stream as usize] as usize * k + base.offset as usize;
+            let to = strides[e.stream as usize] as usize * k + e.offset as usize;
+            let b = streams[base.stream as usize][from..from + sz].to_vec();
+            streams[e.stream as usize][to..to + sz].copy_from_slice(&b);
+        }
     }
 }
 
